@@ -53,7 +53,7 @@ theorem stmts_lemma : ∀ (ss : List Stmt), FragSs ss = true → ∀ (c : Spec.C
     obtain ⟨rfl, rfl⟩ := h
     refine ⟨Ext.refl _, by simp [layoutStmts], ?_⟩
     intro sF ctx _ _ G _ _ a st _ hgv
-    exact ⟨[], st.gvars, rfl, by intro x hx; cases hx, hgv, by simp [layoutStmts, runIs]⟩
+    exact ⟨[], st.gvars, rfl, (show PlainStmts [] from fun x hx => by cases hx), hgv, by simp [layoutStmts, runIs]⟩
   | s :: ss, hf, c, s0, s1, cs, h => by
     simp only [FragSs, Bool.and_eq_true] at hf
     rw [lowerStmts] at h
@@ -121,16 +121,14 @@ theorem lowerHandler_ok (hnames sg : List Spec.Name) (h : Handler) (hfb : FragSs
     (hl : lowerHandler hnames sg h s0 = .ok (hc, s1)) :
     Ext s0 s1 ∧ ∀ sF, Ext s1 sF → HandlerOK hnames sF h hc := by
   unfold lowerHandler at hl
-  simp only [M_bind_ok, hgl, List.mapM_nil, M_pure_ok] at hl
-  obtain ⟨ni, s2, hni, args, s3, hargs, locIdx, s4, hloc, globIdx, s5, hglob, cs, s6, hcs, hfin⟩ := hl
+  simp only [M_bind_ok, hgl, List.mapM_nil, M_pure_ok, Prod.mk.injEq, exists_eq_right_right', exists_and_left, exists_eq_left'] at hl
+  obtain ⟨ni, s2, hni, args, s3, hargs, locIdx, s5, hloc, globIdx, s5', ⟨rfl, rfl⟩, cs, s6, hcs, hfin⟩ := hl
   obtain ⟨e1, hget, hlt, _⟩ := nameIdx_ok _ _ _ _ hni
   obtain ⟨e2, hA⟩ := mapM_nameIdx_ok _ _ _ _ hargs
   obtain ⟨e3, hL⟩ := mapM_nameIdx_ok _ _ _ _ hloc
-  simp only [Prod.mk.injEq] at hglob
-  obtain ⟨rfl, rfl⟩ := hglob
   obtain ⟨e4, hop, hrun⟩ := stmts_lemma h.body hfb _ _ _ cs hcs
-  split at hfin
-  · rename_i hwf
+  by_cases hwf : ((layoutStmts none cs ++ [Instr.op1 (if h.isMethod = true then 2 else 1)]).all fun i => decide i.WF) = true
+  · rw [if_pos hwf] at hfin
     simp only [M_pure_ok, Prod.mk.injEq] at hfin
     obtain ⟨rfl, rfl⟩ := hfin
     refine ⟨((e1.trans e2).trans e3).trans e4, ?_⟩
@@ -150,10 +148,241 @@ theorem lowerHandler_ok (hnames sg : List Spec.Name) (h : Handler) (hfb : FragSs
       · intro ctx hrel hP G hG a st hb hgv
         have hrel' : Rel { handlers := hnames, params := h.params, locals := h.locals, isMethod := h.isMethod, inTell := false } sF ctx := hrel
         obtain ⟨ns, gv', hemb, hplain, hgv', hr⟩ := hrun sF ctx hF hrel' G hG hP a st hb hgv
-        refine ⟨ns, gv', _, _, hemb, hplain, hgv', ?_⟩
+        refine ⟨ns, gv', ((a + codeSize (layoutStmts none cs) : Nat) : Int), ((a + codeSize (layoutStmts none cs) : Nat) : Int), hemb, hplain, hgv', ?_⟩
         rw [runIs_append, hr]
         simp only [Except.bind]
         rw [runIs_single, exec_exit ctx _ (by simp [hm])]
-  · simp [Spec.fail] at hfin
+  · rw [if_neg hwf] at hfin
+    simp [Spec.fail] at hfin
+
+theorem lowerHandlers_ok (hnames sg : List Spec.Name) : ∀ (hs : List Handler),
+    (∀ h ∈ hs, FragSs h.body = true ∧ h.isMethod = false ∧ h.globalsUsed sg = []) → ∀ (s0 s1 : St) (hcs : List HCode),
+    lowerHandlers hnames sg hs s0 = .ok (hcs, s1) →
+    Ext s0 s1 ∧ ∀ sF, Ext s1 sF → All2 (HandlerOK hnames sF) hs hcs
+  | [], _, s0, s1, hcs, h => by
+    rw [lowerHandlers] at h
+    simp only [M_pure_ok, Prod.mk.injEq] at h
+    obtain ⟨rfl, rfl⟩ := h
+    exact ⟨Ext.refl _, fun _ _ => All2.nil⟩
+  | x :: xs, hf, s0, s1, hcs, h => by
+    rw [lowerHandlers] at h
+    simp only [M_bind_ok, M_pure_ok, Prod.mk.injEq] at h
+    obtain ⟨c, s', hc, cs, s'', hcs', rfl, rfl⟩ := h
+    obtain ⟨hb, hm, hg⟩ := hf x (by simp)
+    obtain ⟨e1, h1⟩ := lowerHandler_ok hnames sg x hb hm hg s0 _ c hc
+    obtain ⟨e2, h2⟩ := lowerHandlers_ok hnames sg xs (fun y hy => hf y (by simp [hy])) _ _ cs hcs'
+    exact ⟨e1.trans e2, fun sF hF => All2.cons (h1 sF (e2.trans hF)) (h2 sF hF)⟩
+
+/-! ### one parsed handler -/
+
+theorem padEven_prefix (b : Bytes) : ∃ t, padEven b = b ++ t := by
+  unfold padEven; split
+  · exact ⟨[0], rfl⟩
+  · exact ⟨[], by simp⟩
+
+theorem plain_exit (p q : Int) : PlainStmt (exitNode p q) := PlainStmt.call _ _ _ _ _ _ _ _
+
+/-- a handler record and its block sit in `d`: record at `frb`, block at some `off` -/
+def Placed (d : Bytes) (frb : Nat) (hc : HCode) : Prop :=
+  ∃ off, CodeAt d frb (encFs (recFields hc off)) ∧ CodeAt d off (blockBytes hc) ∧ off + (blockBytes hc).length < 32768
+
+/-- the model context before the function records are read -/
+structure Ctx0 (ctx0 : Lscr.Ctx) (sF : St) (hnames : List Spec.Name) : Prop where
+  names : ctx0.names = sF.names
+  consts : ctx0.constants = sF.consts.map constName
+  lfn : ctx0.localFuncs = hnames
+
+theorem leaves_get {cls : Leaf} {ns : List Str} {l : List Node} (h : Leaves cls ns l) (j : Nat) (v : Str) (hj : ns[j]? = some v) :
+    ∃ p, l[j]? = some (.leaf cls (.s v) p) := by
+  obtain ⟨x, hx, p, rfl⟩ := All2.get h j v hj
+  exact ⟨p, hx⟩
+
+theorem rel_of_ctx0 (ctx0 : Lscr.Ctx) (sF : St) (hnames : List Spec.Name) (h : Handler) (hm : h.isMethod = false)
+    (h0 : Ctx0 ctx0 sF hnames) (locals params : List Node) (hl : Leaves .localVar h.locals locals) (hp : Leaves .paramName h.params params) :
+    Rel (hctx hnames h) sF { ctx0 with params := params, localVars := locals } := by
+  refine ⟨h0.names, ?_, ?_, ?_, ?_⟩
+  · intro k n hk
+    show ctx0.constants[k]? = _
+    rw [h0.consts, List.getElem?_map, hk]; rfl
+  · intro v j hj
+    have := (idxOf_get v _ 0 j hj).2
+    exact leaves_get hl j v (by simpa [hctx] using this)
+  · intro v o ho
+    simp only [hctx, Spec.Ctx.paramOff, hm, Bool.false_eq_true, if_false] at ho
+    cases hi : idxOf v h.params 0 with
+    | none => rw [hi] at ho; cases ho
+    | some i =>
+      rw [hi] at ho
+      simp only [Option.map_some, Option.some.injEq] at ho
+      have := (idxOf_get v _ 0 i hi).2
+      obtain ⟨p, hp'⟩ := leaves_get hp i v (by simpa using this)
+      exact ⟨i, p, ho.symm, hp'⟩
+  · intro f k hk
+    show ctx0.localFuncs[k]? = _
+    rw [h0.lfn]
+    have := (idxOf_get f _ 0 k hk).2
+    simpa [hctx] using this
+
+theorem parseFunc_ok (ctx0 : Lscr.Ctx) (d : Bytes) (frb : Nat) (h : Handler) (hc : HCode) (sF : St) (hnames G : List Spec.Name)
+    (h0 : Ctx0 ctx0 sF hnames) (hok : HandlerOK hnames sF h hc) (hm : h.isMethod = false) (hpl : Placed d frb hc)
+    (hP : ∀ v ∈ Stmt.varsList .prop h.body, ctx0.props.contains v = true) (hG : ∀ g ∈ Stmt.varsList .glob h.body, g ∈ G)
+    (regs : Regs) (F : List FuncDef) :
+    ∃ regs' f, parseFunc ctx0 d (frb : Int) { bpc := 6, tell := false, regs := regs, funcs := F }
+        = .ok { bpc := 6, tell := false, regs := regs', funcs := F ++ [f] } ∧ FuncRel G h f := by
+  obtain ⟨off, hrec, hblk, hsz⟩ := hpl
+  obtain ⟨locals, params, hfrb, hL, hPm⟩ := readFrb_ok ctx0 d frb off hc h.name h.params h.locals hrec hblk hsz (by have := hok.ni.1; omega)
+    (by rw [h0.names]; exact hok.ni.2) (by rw [h0.names]; exact hok.args) (by rw [h0.names]; exact hok.locals) hok.globals
+  obtain ⟨is, hcode, hgood, hrun⟩ := hok.code
+  have hrel := rel_of_ctx0 ctx0 sF hnames h hm h0 locals params hL hPm
+  obtain ⟨ns, gv', p, q, hemb, hplain, hgv', hr⟩ := hrun _ hrel hP G hG off { bpc := 6, tell := false, gvars := [] } rfl (by intro x hx; cases hx)
+  have hcat : CodeAt d off (encodeInstrs is) := by
+    obtain ⟨t, ht⟩ := padEven_prefix hc.code
+    have : CodeAt d off (hc.code ++ (t ++ hc.args.flatMap be16 ++ hc.locals.flatMap be16 ++ hc.globals.flatMap be16)) := by
+      simpa [blockBytes, ht, List.append_assoc] using hblk
+    rw [← hcode]; exact this.left
+  have hlen : hc.code.length = codeSize is := by rw [hcode, encodeInstrs_length]
+  obtain ⟨regs1, hloop⟩ := opcodeLoop_run { ctx0 with params := params, localVars := locals } d off hc.code.length is off regs
+    { bpc := 6, tell := false, gvars := [] } _ hgood hcat (Nat.le_refl _) (by omega) hr
+  have hplains : PlainStmts (ns ++ [exitNode p q]) := by
+    intro x hx
+    rcases List.mem_append.mp hx with hx | hx
+    · exact hplain x hx
+    · simp only [List.mem_singleton] at hx; subst hx; exact plain_exit p q
+  refine ⟨regs1, { name := h.name, pos := (frb : Int) + 42, params := params, localVars := locals, globalVars := gv', stmts := ns ++ [exitNode p q], isMethod := false }, ?_, ⟨rfl, hPm, hL, rfl, hgv', ns, p, q, rfl, hemb⟩⟩
+  unfold parseFunc
+  simp only [hfrb, bind, Except.bind, parseOpcodes]
+  rw [hloop, ← hlen, opcodeLoop_end]
+  simp only [List.nil_append, condDetect_plain hplains, loopDetect_plain hplains, pure, Except.pure]
+
+theorem parseFuncs_ok (ctx0 : Lscr.Ctx) (d : Bytes) (frb : Nat) (sF : St) (hnames G : List Spec.Name) (h0 : Ctx0 ctx0 sF hnames) :
+    ∀ (hs : List Handler) (hcs : List HCode), All2 (HandlerOK hnames sF) hs hcs →
+    (∀ h ∈ hs, h.isMethod = false ∧ (∀ v ∈ Stmt.varsList .prop h.body, ctx0.props.contains v = true) ∧
+      ∀ g ∈ Stmt.varsList .glob h.body, g ∈ G) →
+    ∀ (k : Nat), (∀ j hc, hcs[j]? = some hc → Placed d (frb + 42 * (k + j)) hc) → ∀ (regs : Regs) (F : List FuncDef),
+    ∃ regs' fs, parseFuncs ctx0 d hs.length ((frb + 42 * k : Nat) : Int) { bpc := 6, tell := false, regs := regs, funcs := F }
+        = .ok { bpc := 6, tell := false, regs := regs', funcs := F ++ fs } ∧ All2 (FuncRel G) hs fs := by
+  intro hs hcs hall
+  induction hall with
+  | nil =>
+    intro _ k _ regs F
+    exact ⟨regs, [], by simp [parseFuncs], All2.nil⟩
+  | @cons h hc hs hcs hok _ ih =>
+    intro hfr k hpl regs F
+    obtain ⟨hm, hP, hG⟩ := hfr h (by simp)
+    obtain ⟨regs1, f, hpf, hrel⟩ := parseFunc_ok ctx0 d (frb + 42 * k) h hc sF hnames G h0 hok hm (by simpa using hpl 0 hc rfl) hP hG regs F
+    obtain ⟨regs2, fs, hpfs, hrels⟩ := ih (fun x hx => hfr x (by simp [hx])) (k + 1)
+      (fun j c hj => by
+        have := hpl (j + 1) c (by simpa using hj)
+        have e : k + (j + 1) = k + 1 + j := by omega
+        rwa [e] at this) regs1 (F ++ [f])
+    refine ⟨regs2, f :: fs, ?_, All2.cons hrel hrels⟩
+    simp only [List.length_cons, parseFuncs, hpf, bind, Except.bind]
+    have e : ((frb + 42 * k : Nat) : Int) + 42 = ((frb + 42 * (k + 1) : Nat) : Int) := by omega
+    rw [e, hpfs]
+    simp [List.append_assoc]
+
+/-! ### the script level -/
+
+theorem dedup_mem : ∀ (l acc : List Spec.Name) (g : Spec.Name), g ∈ dedup l acc → g ∈ l ∨ g ∈ acc
+  | [], acc, g, h => by simp [dedup] at h; exact Or.inr h
+  | x :: xs, acc, g, h => by
+    unfold dedup at h
+    split at h
+    · rcases dedup_mem xs acc g h with h | h
+      · exact Or.inl (by simp [h])
+      · exact Or.inr h
+    · rcases dedup_mem xs (x :: acc) g h with h | h
+      · exact Or.inl (by simp [h])
+      · rcases List.mem_cons.mp h with h | h
+        · exact Or.inl (by simp [h])
+        · exact Or.inr h
+
+theorem globalsUsed_nil (h : Handler) (sg : List Spec.Name) (hall : ∀ g ∈ Stmt.varsList .glob h.body, g ∈ sg) : h.globalsUsed sg = [] := by
+  unfold Handler.globalsUsed
+  rw [List.filter_eq_nil_iff]
+  intro g hg
+  rcases dedup_mem _ _ g hg with hg | hg
+  · simp [hall g hg]
+  · cases hg
+
+theorem fragH_spec (s : Spec.Script) (h : Handler) (hf : FragH s h = true) :
+    h.isMethod = false ∧ idOk h.name = true ∧ (∀ v ∈ h.params, idOk v = true) ∧ FragSs h.body = true ∧
+      (∀ g ∈ Stmt.varsList .glob h.body, g ∈ s.globals) ∧ (∀ v ∈ Stmt.varsList .prop h.body, v ∈ s.props) := by
+  simp only [FragH, Bool.and_eq_true, Bool.not_eq_true', List.all_eq_true, List.contains_iff_mem] at hf
+  obtain ⟨⟨⟨⟨⟨h1, h2⟩, h3⟩, h4⟩, h5⟩, h6⟩ := hf
+  exact ⟨h1, h2, h3, h4, h5, h6⟩
+
+/-- **inversion of `compile`** on the fragment: the container is the pure layout of its parts, and the parts satisfy what the
+    lower layers need -/
+theorem compile_inv (o : Options) (s : Spec.Script) (c : Compiled) (hf : FragScript s = true) (h : compile o s = .ok c) :
+    ∃ (propIdx globIdx : List Nat) (hcs : List HCode) (sF : St),
+      c.lscr = (Lay.mk (o.scrNum % 65536) 0xffff propIdx globIdx hcs sF.consts).bytes ∧ c.lnam = lnamBytes sF.names ∧ c.names = sF.names ∧
+      NamesAt sF.names propIdx s.props ∧ NamesAt sF.names globIdx s.globals ∧
+      All2 (HandlerOK (s.handlers.map (·.name)) sF) s.handlers hcs ∧ (∀ k ∈ sF.consts, GoodConst k) ∧
+      (Lay.mk (o.scrNum % 65536) 0xffff propIdx globIdx hcs sF.consts).size < 32768 ∧ (∀ n ∈ sF.names, n.length < 256) := by
+  simp only [FragScript, Bool.and_eq_true, List.all_eq_true, List.isEmpty_iff] at hf
+  obtain ⟨⟨⟨hfac, _⟩, _⟩, hH⟩ := hf
+  unfold compile at h
+  cases hc : compileM s o.scrNum { names := o.pre, consts := [] } with
+  | error e => rw [hc] at h; cases h
+  | ok r =>
+    obtain ⟨c', st1⟩ := r
+    rw [hc] at h
+    simp only [Except.ok.injEq] at h
+    subst h
+    unfold compileM at hc
+    simp only [M_bind_ok, hfac, if_true, M_pure_ok, Prod.mk.injEq] at hc
+    obtain ⟨fi, s1, ⟨rfl, rfl⟩, propIdx, s2, hp, globIdx, s3, hg, mi, s4, ⟨rfl, rfl⟩, hcs, s5, hl, st, s6, hget, hfin⟩ := hc
+    simp only [get, getThe, MonadStateOf.get, StateT.get, pure, Except.pure, Except.ok.injEq, Prod.mk.injEq] at hget
+    obtain ⟨rfl, rfl⟩ := hget
+    obtain ⟨e1, hP⟩ := mapM_nameIdx_ok _ _ _ _ hp
+    obtain ⟨e2, hG⟩ := mapM_nameIdx_ok _ _ _ _ hg
+    obtain ⟨e3, hHs⟩ := lowerHandlers_ok (s.handlers.map (·.name)) s.globals s.handlers (by
+      intro x hx
+      obtain ⟨h1, _, _, h4, h5, _⟩ := fragH_spec s x (hH x hx)
+      exact ⟨h4, h1, globalsUsed_nil x s.globals h5⟩) _ _ hcs hl
+    have hgood : ∀ k ∈ s5.consts, GoodConst k := ((e1.trans e2).trans e3).good (by simp)
+    have hlen : s.handlers.length = hcs.length := (hHs s5 (Ext.refl _)).length_eq
+    refine ⟨propIdx, globIdx, hcs, s5, ?_⟩
+    by_cases hsz : (Lay.mk (o.scrNum % 65536) 0xffff propIdx globIdx hcs s5.consts).size ≥ 32768
+    · exfalso
+      have : (92 + (handlerBlocks hcs 92).fst.length + 2 * ([] ++ propIdx).length + 2 * globIdx.length + (handlerBlocks hcs 92).snd.length
+          + 6 * s5.consts.length + (constRecords s5.consts 0).snd.length ≥ 32768) := by
+        simpa [Lay.size, Lay.conOff, Lay.crbOff, Lay.frbOff, Lay.grbOff, Lay.prbOff, Lay.blocks, Lay.records, Lay.cdata] using hsz
+      rw [if_pos this] at hfin
+      simp [Spec.fail] at hfin
+    · have hn : ¬ (92 + (handlerBlocks hcs 92).fst.length + 2 * ([] ++ propIdx).length + 2 * globIdx.length + (handlerBlocks hcs 92).snd.length
+          + 6 * s5.consts.length + (constRecords s5.consts 0).snd.length ≥ 32768) := by
+        simpa [Lay.size, Lay.conOff, Lay.crbOff, Lay.frbOff, Lay.grbOff, Lay.prbOff, Lay.blocks, Lay.records, Lay.cdata] using hsz
+      rw [if_neg hn] at hfin
+      split at hfin
+      · simp [Spec.fail] at hfin
+      · split at hfin
+        · simp [Spec.fail] at hfin
+        · simp only [M_pure_ok, Prod.mk.injEq] at hfin
+          obtain ⟨rfl, _⟩ := hfin
+          rename_i _ hnl _
+          refine ⟨?_, rfl, rfl, hP.mono (e2.trans e3), hG.mono e3, hHs s5 (Ext.refl _), hgood, by omega, ?_⟩
+          rotate_left
+          · intro n hn'
+            rcases Nat.lt_or_ge n.length 256 with hh | hh
+            · exact hh
+            · exfalso; apply hnl
+              rw [List.any_eq_true]
+              exact ⟨n, hn', by simpa using hh⟩
+          have hmod : be16 (o.scrNum % 65536) = be16 o.scrNum := by
+            simp only [be16, List.cons.injEq, and_true]
+            constructor
+            · apply UInt8.toNat_inj.mp
+              simp only [UInt8.toNat_ofNat']
+              omega
+            · apply UInt8.toNat_inj.mp
+              simp only [UInt8.toNat_ofNat']
+              omega
+          simp only [Lay.bytes, Lay.fields, hdrFields, encFs, encF, Lay.size, Lay.conOff, Lay.crbOff, Lay.frbOff, Lay.grbOff, Lay.prbOff,
+            Lay.blocks, Lay.records, Lay.cdata, Lay.crecs, hlen, List.nil_append]
+          have e2 : ∀ v, encF (2, v) = be16 v := fun _ => rfl
+          have e4 : ∀ v, encF (4, v) = be32 v := fun _ => rfl
+          simp [List.append_assoc, e2, e4, hmod]
 
 end Drx.Link
